@@ -974,6 +974,25 @@ def index_strategy(
         if unique:
             # more than one masked value would count as duplicates
             strategy = strategy.filter(lambda x: not x.duplicated().any())
+
+    for check in checks if checks is not None else []:
+        # like series_strategy: vectorized checks with undefined built-in or
+        # custom strategies are applied to the entire index.
+        if (
+            check.strategy is None
+            and not STRATEGY_DISPATCHER.get((check.name, pd.Series))
+            and not check.element_wise
+        ):
+            warnings.warn(
+                "Vectorized check doesn't have a defined strategy. "
+                "Falling back to filtering drawn values based on the check "
+                "definition. This can considerably slow down data-generation."
+            )
+            strategy = strategy.filter(
+                lambda index, check=check: check(
+                    index.to_series()
+                ).check_passed
+            )
     return strategy
 
 
